@@ -10,6 +10,7 @@ import IcyVerif.Drv.FontBox
 import IcyVerif.Drv.IcyDraw
 import IcyVerif.Drv.Igs
 import IcyVerif.Drv.Loaders
+import IcyVerif.Drv.PalStream
 import IcyVerif.Drv.Palette
 import IcyVerif.Drv.Rip
 import IcyVerif.Drv.Sauce
@@ -37,6 +38,7 @@ def dispatch (line : String) : String :=
   | "icydraw" :: rest => IcyDraw.handle rest
   | "igs" :: rest => Igs.handle rest
   | "loaders" :: rest => Loaders.handle rest
+  | "palstream" :: rest => PalStream.handle rest
   | "palette" :: rest => Palette.handle rest
   | "rip" :: rest => Rip.handle rest
   | "sauce" :: rest => Sauce.handle rest
